@@ -18,14 +18,17 @@ type Mutex struct {
 	held bool
 }
 
+//go:norace
 func (m *Mutex) free() bool { return !m.held }
 
+//go:norace
 func (m *Mutex) Lock() {
 	rt.Point(rt.OpLock, m, m.free)
 	m.held = true
 	rt.RaceAcquire(m)
 }
 
+//go:norace
 func (m *Mutex) TryLock() bool {
 	rt.Point(rt.OpLock, m, nil)
 	if m.held {
@@ -39,6 +42,7 @@ func (m *Mutex) TryLock() bool {
 // Unlock is not a scheduling point: releasing a lock commutes with every operation of other
 // threads that could run before it (they cannot touch this mutex), so merging it with the
 // preceding step loses no behaviour.
+//go:norace
 func (m *Mutex) Unlock() {
 	if !m.held {
 		if rt.Cur != nil && rt.Cur.Teardown() {
@@ -56,21 +60,25 @@ type RWMutex struct {
 	readers int
 }
 
+//go:norace
 func (m *RWMutex) Lock() {
 	rt.Point(rt.OpLock, m, func() bool { return !m.w && m.readers == 0 })
 	m.w = true
 	rt.RaceAcquire(m)
 }
+//go:norace
 func (m *RWMutex) Unlock() {
 	rt.RaceRelease(m)
 	m.w = false
 	rt.NoteWrite()
 }
+//go:norace
 func (m *RWMutex) RLock() {
 	rt.Point(rt.OpRLock, m, func() bool { return !m.w })
 	m.readers++
 	rt.RaceAcquire(m)
 }
+//go:norace
 func (m *RWMutex) RUnlock() {
 	rt.RaceReleaseMerge(m)
 	if m.readers > 0 {
@@ -78,17 +86,21 @@ func (m *RWMutex) RUnlock() {
 	}
 	rt.NoteWrite()
 }
+//go:norace
 func (m *RWMutex) RLocker() Locker { return rlocker{m} }
 
 type rlocker struct{ m *RWMutex }
 
+//go:norace
 func (r rlocker) Lock()   { r.m.RLock() }
+//go:norace
 func (r rlocker) Unlock() { r.m.RUnlock() }
 
 type WaitGroup struct {
 	n int
 }
 
+//go:norace
 func (w *WaitGroup) Add(d int) {
 	rt.Point(rt.OpAtomic, w, nil)
 	w.n += d
@@ -101,7 +113,9 @@ func (w *WaitGroup) Add(d int) {
 	}
 	rt.RaceReleaseMerge(w)
 }
+//go:norace
 func (w *WaitGroup) Done() { w.Add(-1) }
+//go:norace
 func (w *WaitGroup) Wait() {
 	rt.Point(rt.OpWait, w, func() bool { return w.n == 0 })
 	rt.RaceAcquire(w)
@@ -112,6 +126,7 @@ type Once struct {
 	m    Mutex
 }
 
+//go:norace
 func (o *Once) Do(f func()) {
 	o.m.Lock()
 	defer o.m.Unlock()
@@ -127,7 +142,9 @@ type Cond struct {
 	signals int
 }
 
+//go:norace
 func NewCond(l Locker) *Cond { return &Cond{L: l} }
+//go:norace
 func (c *Cond) Wait() {
 	c.L.Unlock()
 	c.waiters++
@@ -136,12 +153,14 @@ func (c *Cond) Wait() {
 	c.waiters--
 	c.L.Lock()
 }
+//go:norace
 func (c *Cond) Signal() {
 	rt.Point(rt.OpAtomic, c, nil)
 	if c.waiters > c.signals {
 		c.signals++
 	}
 }
+//go:norace
 func (c *Cond) Broadcast() {
 	rt.Point(rt.OpAtomic, c, nil)
 	c.signals = c.waiters
